@@ -1203,6 +1203,30 @@ func (fr *Frame) checkInvariant(li *loopInfo, from *ssa.BasicBlock, cond string,
 	}
 }
 
+// clauses of the form "loop#N entry <expr>" are asserted where the loop is entered from outside (in the scope of
+// the block that jumps to the loop head); they are never assumed
+func (fr *Frame) checkLoopEntry(li *loopInfo, from *ssa.BasicBlock, cond string, heap Heap) {
+	if fr.contract == nil {
+		return
+	}
+	vc := fr.vc
+	for i, cl := range fr.contract.LoopEntry[li.ordinal] {
+		env := fr.envAt(from, true, nil)
+		env.heap = heap
+		t, err := env.evalBool(cl.Expr)
+		if err != nil {
+			vc.specError(fr.fn, cl, err)
+			continue
+		}
+		name := fmt.Sprintf("%s/loop-entry/loop#%d:%s/edge%d", fnName(fr.fn), li.ordinal, clauseId(cl, i), fr.edgeOrdinal(li, from, "entry"))
+		if fr.path != "" {
+			name += "@" + fr.path
+		}
+		o := vc.oblige("inv-entry", name, cl.Tags, cond, t, fr.fn, li.head.Instrs[0].Pos(), cl.Src)
+		o.Extra = map[string]string{"contract": fmt.Sprintf("%s:%d", cl.File, cl.Line)}
+	}
+}
+
 // clauses of the form "loop#N backedge <expr>" are asserted at the end of every iteration, in the scope of
 // the block the back edge leaves (the locals of the body are visible); they are never assumed
 func (fr *Frame) checkBackedge(li *loopInfo, from *ssa.BasicBlock, cond string, heap Heap) {
@@ -1309,6 +1333,7 @@ func (fr *Frame) block(b *ssa.BasicBlock, ov *headOverride) {
 			// loop entry: check invariants on entry edges
 			for i, p := range preds {
 				fr.checkInvariant(li, p, conds[i], hs[i], "entry")
+				fr.checkLoopEntry(li, p, conds[i], hs[i])
 			}
 		}
 		heap = vc.mergeHeaps(conds, hs)
